@@ -2,7 +2,8 @@
    Model: theories/Container.v (hand model of KdBufParser.parse_v2 and the construct layouts it uses);
    tie: correspondence of tools/props/C02.py / C06.py on generated and malformed dumps. *)
 From Coq Require Import NArith Arith List Bool Lia.
-From Kd Require Import theories.Base theories.Kevent theories.Utf8 gen.GenKevent theories.Container theories.ContainerV2.
+From Kd Require Import theories.Base theories.Kevent theories.Utf8 gen.GenKevent theories.Container theories.ContainerV2
+  gen.GenContainer theories.ContainerRefine.
 Import ListNotations.
 Open Scope N_scope.
 
@@ -49,3 +50,19 @@ Proof.
   cbv zeta. split; [|split; [vm_compute; reflexivity|reflexivity]].
   repeat constructor; cbn; try lia; try reflexivity; unfold bytes_ok; repeat constructor; unfold is_byte; lia.
 Qed.
+
+(* the constants and layouts of the model are those of the code: the dispatch of KdBufParser.parse on the two magics, the byte
+   layout of a thread-map entry (tid, pid, fixed-size name) and the fixed part of the version-2 header, as
+   tools/translate/tr_container.py reads them off kd_buf_parser.py on every run (the functions seek_until, parse, set_thread_map,
+   parse_v2, parse_v3 are compared with the texts the model was written from) *)
+Theorem c02_code_dispatch : forall plist_ok data,
+  parse_file_p plist_ok gen_RAW_VERSION2_BYTES gen_RAW_VERSION3_BYTES data = parse plist_ok data.
+Proof. exact dispatch_refines. Qed.
+Theorem c02_code_threadmap_entry : forall r,
+  match gen_threadmap_sizes with [a; b; c] => tm_entry_p a b c r = tm_entry r | _ => False end.
+Proof. exact threadmap_entry_refines. Qed.
+Theorem c02_code_layouts :
+  fold_right Nat.add 0%nat gen_v2_fixed_sizes = V2_FIXED /\ hd 0%nat gen_v2_fixed_sizes = 4%nat /\
+  fold_right Nat.add 0%nat gen_v3_fixed_sizes = 60%nat /\ gen_magic_size = 4%nat /\
+  fold_right Nat.add 0%nat gen_threadmap_sizes = 32%nat.
+Proof. exact layouts_refine. Qed.
